@@ -102,7 +102,7 @@ SgrBlankAlphabet(t) ==
      {FS("Sgr", <<a>>) : a \in {<<0, 0>>, <<48, 9>>, <<7, 0>>, <<38, 256 + 66051>>}}
   \cup {F1("Print", 97), F1("Rep", 2), F0("Lf"), F0("Ri"), F0("Nel"), F2("Decstbm", 1, t.rows - 1), F2("Decstbm", 2, t.rows), F2("Cup", t.rows - 1, 1), F2("Cup", 1, t.cols)}
   \cup {F1(f, 1) : f \in {"Su", "Sd", "Il", "Dl", "Ich", "Dch", "Ech"}} \cup {F1("El", 0), F1("El", 1), F1("Ed", 0), F1("Ed", 1), F1("Ed", 2)}
-  \cup {FS("Decset", <<1047>>)}
+  \cup {FS("Decset", <<1047>>), F1("Ich", 2), F1("Dch", 2), F1("Ech", 2)}      \* counts that reach the right edge / insert several blanks
 SgrBlankSizes == {<<2, 3>>}
 
 \* ------------------------------------------------ C16-C19: tabs, contexts, screens, resets
